@@ -167,7 +167,7 @@ def kill_stragglers(work):
 
 
 def run_vdrive(build, script_text, work, *, asan=False, mtx=True, heap=False, timeout=120, env_extra=None,
-               repo_count=True, strace=None, keep=False, exe=None, preload=None):
+               repo_count=True, strace=None, keep=False, exe=None, preload=None, run_as=None):
     """Runs one script in one vdrive process. `work` is a private directory (created if needed)."""
     os.makedirs(work, exist_ok=True)
     os.chmod(work, 0o777)
@@ -214,8 +214,15 @@ def run_vdrive(build, script_text, work, *, asan=False, mtx=True, heap=False, ti
         cmd = ["strace", "-f", "-E", "LD_PRELOAD=" + pl] + strace + cmd
     res = Result()
     try:
+        pre = None
+        if run_as:
+            # drop the real/effective ids before the exec (a set-uid driver binary then starts in secure-execution mode)
+            def pre():
+                os.setgroups([])
+                os.setgid(run_as[1])
+                os.setuid(run_as[0])
         p = subprocess.Popen(cmd, env=env, cwd=work, stdin=subprocess.DEVNULL, stdout=subprocess.DEVNULL,
-                             stderr=subprocess.PIPE, close_fds=True, start_new_session=True)
+                             stderr=subprocess.PIPE, close_fds=True, start_new_session=True, preexec_fn=pre)
     except OSError as e:
         raise Harness("cannot start vdrive: %s" % e)
     # wait for the driver itself, not for EOF on its stderr: a hung descendant of a killed case may still hold that pipe
